@@ -46,6 +46,21 @@ def shapes(tier, rnd):
     return specs
 
 
+def _member_latin1(hcommon, g, w):
+    """reference membership with bytes literals read as Latin-1 text (the encoding E3 uses for bytes literals)"""
+    orig = hcommon._lit
+
+    def lit(node):
+        v = orig(node)
+        return v.decode("latin-1") if isinstance(v, bytes) else v
+
+    hcommon._lit = lit
+    try:
+        return hcommon.member(g, w)
+    finally:
+        hcommon._lit = orig
+
+
 def run(tier):
     from fandango.language.parse.parse import parse
     import fandango.language.grammar.nodes as nodes_mod
@@ -113,7 +128,7 @@ def run(tier):
             for w in q.sample(r1, 2):
                 # against the independent reference recogniser (not the parser under test: a word the parser wrongly
                 # rejects is C05's business - that is how known finding C05-starrep was found)
-                if not hcommon.member(g1, w):
+                if not _member_latin1(hcommon, g1, w):
                     run.errors.append(f"translator validation: regex word {w!r} is not in the reference language of {spec!r}")
             validated += 1
         if len(run.samples) < 6:
